@@ -17,6 +17,7 @@ import (
 func init() {
 	verifRegister("VerifC18_Histories", VerifC18_Histories)
 	verifRegister("VerifC18_InductiveStep", VerifC18_InductiveStep)
+	verifRegister("VerifC18_LockDiscipline", VerifC18_LockDiscipline)
 }
 
 func c18Tag(i int) int { return verifInt(c18Name("tag", i)) }
@@ -109,5 +110,49 @@ func VerifC18_InductiveStep() {
 	}
 	verifAssert("keys-contiguous", okKeys)
 	c18CheckSnapshot("post-state", q, held)
+	verifWitness("returned")
+}
+
+// Lock discipline: what makes the sequential results carry over to
+// concurrent callers.  From any state of the histories above, on every path
+// of Add every access to Items and NextIndex happens with the write lock
+// held, on every path of GetMessages with at least the read lock, and the
+// lock is free again on return.  (Natively the same is exercised by a
+// concurrent stress run under the Go race detector.)
+func VerifC18_LockDiscipline() {
+	verifOwnPanics()
+	verifMapOrder()
+	n := verifParam("capacity", 1, 3)
+	cnt := verifParam("held", 0, n)
+	q := NewCircularQueue(n)
+	for i := 0; i < cnt; i++ {
+		q.Add(rtcm.Message{MessageType: c18Tag(i)})
+	}
+	verifWitness("reached")
+	verifGuardedBy(q.RWMutex, "queue-state", &q.Items, &q.NextIndex)
+	verifGuardOn()
+	if verifParam("op", 0, 1) == 0 {
+		q.Add(rtcm.Message{MessageType: c18Tag(cnt)})
+	} else {
+		_ = q.GetMessages()
+	}
+	verifGuardOff()
+	verifAssert("lock-released-on-return", verifRWMutexFree(q.RWMutex))
+	verifRaceStress(
+		func() {
+			for i := 0; i < 300; i++ {
+				q.Add(rtcm.Message{MessageType: i})
+			}
+		},
+		func() {
+			for i := 0; i < 300; i++ {
+				_ = q.GetMessages()
+			}
+		},
+		func() {
+			for i := 0; i < 300; i++ {
+				q.Add(rtcm.Message{MessageType: -i})
+			}
+		})
 	verifWitness("returned")
 }
